@@ -280,6 +280,9 @@ def run_items(prop, tier, seed, items, expected, verbose=False,
                     if rr.get('outcome') == 'return' and \
                             rr.get('clauses') == [False]:
                         robust.append(f)
+                    elif f[3] == 'no-unlisted-exception' and \
+                            str(rr.get('outcome')).startswith('raise:'):
+                        robust.append(f)
             except Exception as e:
                 eng.errors.append('native re-check %s: %s' % (nm, e))
             if not robust:
